@@ -375,3 +375,134 @@ func TestPublishStorm(t *testing.T) {
 		},
 		Exec: execStorm})
 }
+
+// ---------------------------------------------------------------- replies about a value that other clients are changing
+
+type SharedCase struct {
+	Elems   int `json:"elems"`
+	Readers int `json:"readers"`
+	Writers int `json:"writers"`
+	Rounds  int `json:"rounds"`
+}
+
+// execShared: some connections read a long list, hash and set over and over (replies of hundreds of
+// elements) while others shrink and grow them. What a reader gets may be any state the value went through,
+// but it is always one complete well-formed reply per command: the announced element count is the number
+// of elements that follow, and the next reply starts where this one ends.
+func execShared(c SharedCase) kit.Outcome {
+	if err := ensureServer(); err != nil {
+		return kit.Outcome{Fail: "infrastructure: " + err.Error()}
+	}
+	o := kit.Outcome{NonTrivial: c.Readers >= 1 && c.Writers >= 1, Labels: []string{"readers-of-values-being-changed"}}
+	nonceSeq++
+	tag := fmt.Sprintf("sh%d", nonceSeq)
+	lk, hk, sk := tag+":l", tag+":h", tag+":s"
+	setup, err := server.Dial()
+	if err != nil {
+		return kit.Outcome{Fail: "infrastructure: " + err.Error()}
+	}
+	defer setup.Close()
+	la, ha, sa := [][]byte{[]byte("RPUSH"), []byte(lk)}, [][]byte{[]byte("HSET"), []byte(hk)}, [][]byte{[]byte("SADD"), []byte(sk)}
+	for i := 0; i < c.Elems; i++ {
+		e := []byte(fmt.Sprintf("%s.e%d.%s", tag, i, strings.Repeat("x", i%40)))
+		la, ha, sa = append(la, e), append(ha, e, e), append(sa, e)
+	}
+	for _, a := range [][][]byte{la, ha, sa} {
+		if _, err := setup.Do(10*time.Second, a...); err != nil {
+			return kit.Outcome{Fail: "infrastructure: " + err.Error()}
+		}
+	}
+	var stop atomic.Bool
+	var wg sync.WaitGroup
+	errs := make(chan string, c.Readers+c.Writers)
+	for w := 0; w < c.Writers; w++ {
+		wg.Add(1)
+		go func(w int) {
+			defer wg.Done()
+			cn, err := server.Dial()
+			if err != nil {
+				return
+			}
+			defer cn.Close()
+			for i := 0; !stop.Load(); i++ {
+				e := fmt.Sprintf("%s.w%d.%d", tag, w, i)
+				cmds := [][]string{{"RPOP", lk}, {"LPOP", lk, "3"}, {"RPUSH", lk, e, e + "b", e + "c"}, {"HDEL", hk, fmt.Sprintf("%s.e%d.%s", tag, i%c.Elems, strings.Repeat("x", (i%c.Elems)%40))},
+					{"HSET", hk, e, e}, {"SPOP", sk}, {"SADD", sk, e}, {"LTRIM", lk, "1", "-2"}, {"RPUSH", lk, e + "d", e + "e"}}
+				cmd := cmds[i%len(cmds)]
+				if _, err := cn.DoS(5*time.Second, cmd...); err != nil {
+					if !stop.Load() {
+						errs <- fmt.Sprintf("writer %d: %v got no reply: %v", w, cmd, err)
+					}
+					return
+				}
+			}
+		}(w)
+	}
+	var rg sync.WaitGroup
+	for r := 0; r < c.Readers; r++ {
+		rg.Add(1)
+		go func(r int) {
+			defer rg.Done()
+			cn, err := server.Dial()
+			if err != nil {
+				return
+			}
+			defer cn.Close()
+			reads := [][][]byte{{[]byte("LRANGE"), []byte(lk), []byte("0"), []byte("-1")}, {[]byte("HGETALL"), []byte(hk)}, {[]byte("SMEMBERS"), []byte(sk)}, {[]byte("HVALS"), []byte(hk)}}
+			var stream []byte
+			for i := 0; i < c.Rounds; i++ {
+				stream = append(stream, respx.EncodeCommand(reads[(i+r)%len(reads)])...)
+			}
+			nonce := fmt.Sprintf("%s-r%d", tag, r)
+			stream = append(stream, respx.EncodeCommand([][]byte{[]byte("PING"), []byte(nonce)})...)
+			go func() { _ = cn.Write(stream, 30*time.Second) }()
+			for i := 0; i <= c.Rounds; i++ {
+				v, err := cn.Read(10 * time.Second)
+				if err != nil {
+					errs <- fmt.Sprintf("reader %d, reply %d of %d (%s): %v; undecoded bytes %.100q", r, i, c.Rounds, reads[(i+r)%len(reads)][0], err, cn.R.Buffered())
+					return
+				}
+				if i == c.Rounds {
+					if v.Kind != respx.Bulk || string(v.Str) != nonce {
+						errs <- fmt.Sprintf("reader %d: after %d replies the sentinel's echo was expected, got %.120s", r, c.Rounds, v.String())
+					}
+					return
+				}
+				if v.Kind != respx.Array {
+					errs <- fmt.Sprintf("reader %d, reply %d (%s): expected an array, got %.120s", r, i, reads[(i+r)%len(reads)][0], v.String())
+					return
+				}
+				for _, e := range v.Arr {
+					if !strings.HasPrefix(string(e.Str), tag+".") {
+						errs <- fmt.Sprintf("reader %d, reply %d (%s): element %.60q was never stored in that value", r, i, reads[(i+r)%len(reads)][0], e.Str)
+						return
+					}
+				}
+			}
+		}(r)
+	}
+	rg.Wait()
+	stop.Store(true)
+	wg.Wait()
+	_, _ = setup.DoS(5*time.Second, "DEL", lk, hk, sk)
+	close(errs)
+	for e := range errs {
+		if server.WaitExit(300 * time.Millisecond) {
+			e += fmt.Sprintf(" | server died: %.300s", server.CrashReport())
+			stopServer()
+		}
+		o.Fail = e
+		return o
+	}
+	return o
+}
+
+func TestSharedValues(t *testing.T) {
+	defer stopServer()
+	kit.Check(t, kit.Spec[SharedCase]{Sub: "shared", Quick: 4, Thorough: 80,
+		Gen: func(t *rapid.T) SharedCase {
+			return SharedCase{Elems: rapid.SampledFrom([]int{200, 2000, 20000}).Draw(t, "elems"), Readers: rapid.IntRange(1, 4).Draw(t, "readers"),
+				Writers: rapid.IntRange(1, 3).Draw(t, "writers"), Rounds: rapid.SampledFrom([]int{30, 120}).Draw(t, "rounds")}
+		},
+		Exec: execShared})
+}
